@@ -115,8 +115,12 @@ pub trait Tab: Clone + Eq + Ord + Hash + Debug + Send + Sync + Sized + 'static {
     /// (result, `a` afterwards, `b` afterwards) — for consumed operands the original is returned
     fn t_binary_form(op: BinOp, form: usize, a: &Self, b: &Self) -> (Self, Self, Self);
 
+    /// `&a op &a` with both operands the same object
+    fn t_alias_form(op: BinOp, a: &Self) -> Self;
     /// to the dynamic type
     fn t_to_lut(&self) -> Lut;
+    /// `d.clone_from(self)` where `d` is an existing table (of `m` variables for the dynamic type)
+    fn t_clone_from_into(&self, m: usize) -> Self;
 }
 
 macro_rules! common_methods {
@@ -251,6 +255,13 @@ macro_rules! common_methods {
                 _ => panic!("harness: bad unary form"),
             }
         }
+        fn t_alias_form(op: BinOp, a: &Self) -> Self {
+            match op {
+                BinOp::And => a & a,
+                BinOp::Or => a | a,
+                BinOp::Xor => a ^ a,
+            }
+        }
         fn t_binary_form(op: BinOp, form: usize, a: &Self, b: &Self) -> (Self, Self, Self) {
             let x = a.clone();
             let y = b.clone();
@@ -361,6 +372,11 @@ impl Tab for Lut {
     fn t_to_lut(&self) -> Lut {
         self.clone()
     }
+    fn t_clone_from_into(&self, m: usize) -> Self {
+        let mut d = Lut::one(m);
+        d.clone_from(self);
+        d
+    }
     common_methods!();
 }
 
@@ -433,6 +449,11 @@ impl<const N: usize, const T: usize> Tab for StaticLut<N, T> {
     }
     fn t_to_lut(&self) -> Lut {
         Lut::from(*self)
+    }
+    fn t_clone_from_into(&self, _m: usize) -> Self {
+        let mut d = Self::one();
+        d.clone_from(self);
+        d
     }
     common_methods!();
 }
